@@ -141,6 +141,19 @@ def handle (line : String) : String :=
               | .error (.semantic m) => s!"err rtamt semantic {m}"
           | none => "bad-input"
       | _, _ => "bad-input"
+  | "explain" :: f :: n :: sigs =>
+      -- positions reported by the mirror of the explainer: `x:t0,t1 ; y:...` (sorted), or `unsupported`
+      match parseFormula f, n.toNat?, parseEnv sigs with
+      | some φ, some n, some w =>
+          match explainSpec (sigma w) n φ with
+          | .error _ => "err rtamt"
+          | .ok ex =>
+              let vars := (φ.vars.eraseDups)
+              let items := vars.map (fun x =>
+                let ts := (List.range n).filter (fun t => reported ex x t)
+                x ++ ":" ++ ",".intercalate (ts.map toString))
+              "ok " ++ " ; ".intercalate items
+      | _, _, _ => "bad-input"
   | "ia" :: sem :: inputs :: f :: _ =>
       -- the IA predicate override as a formula transformation
       let sm : Option Sem := match sem with
